@@ -93,6 +93,38 @@ func c06inputs(c *Ctx) []c06input {
 			add("byte-"+m.Op, m.Data)
 		}
 	}
+	// hash envelopes (the 9th entry point gets inputs that reach its own rule checks)
+	heZoo := []*Node{refcbor.NTstr(""), refcbor.NTstr(" "), refcbor.NTstr("a"), refcbor.NTstr("text/plain"), refcbor.NInt(0), refcbor.NInt(-1), refcbor.NInt(-16), refcbor.NInt(-43), refcbor.NInt(-44), refcbor.NInt(99),
+		{Major: refcbor.Nint, Arg: 1 << 63}, refcbor.NBstr([]byte{}), refcbor.NBstr([]byte{1}), refcbor.NNull(), refcbor.NBool(true), refcbor.NArr(), refcbor.NArr(refcbor.NTstr("")), refcbor.NMap(), refcbor.NFloat64(1)}
+	for hi := 0; hi < c.N(6, 200); hi++ {
+		for _, ha := range []int64{-16, -43, -44, 99} {
+			base := refcbor.NMap(refcbor.NInt(1), refcbor.NInt(-7), refcbor.NInt(258), refcbor.NInt(ha), refcbor.NInt(259), refcbor.NTstr("text/plain"), refcbor.NInt(260), refcbor.NTstr("loc"))
+			plen := map[int64]int{-16: 32, -43: 48, -44: 64, 99: 5}[ha]
+			for _, pl := range []int{plen, 0, plen - 1, plen + 1} {
+				if pl < 0 {
+					continue
+				}
+				payload := r.Bytes(pl)
+				if payload == nil {
+					payload = []byte{}
+				}
+				wm := &gen.WSign1{L: gen.WLayer{ProtMap: refcbor.Clone(base), Unprot: refcbor.NMap()}, Payload: payload, Sig: r.Bytes(64), Tagged: true}
+				add("hashenv-valid", wm.Bytes())
+				for e := 1; e < len(base.Kids); e += 2 {
+					for _, z := range heZoo {
+						m := refcbor.Clone(base)
+						m.Kids[e] = z
+						w2 := &gen.WSign1{L: gen.WLayer{ProtMap: m, Unprot: refcbor.NMap()}, Payload: payload, Sig: r.Bytes(64), Tagged: true}
+						add("hashenv-grid", w2.Bytes())
+						// the same value in the unprotected bucket
+						u := refcbor.NMap(refcbor.Clone(base.Kids[e-1]), z)
+						w3 := &gen.WSign1{L: gen.WLayer{ProtMap: refcbor.Clone(base), Unprot: u}, Payload: payload, Sig: r.Bytes(64), Tagged: true}
+						add("hashenv-grid-unprotected", w3.Bytes())
+					}
+				}
+			}
+		}
+	}
 	// key grid
 	zoo := gen.KeyValueZoo(r)
 	rounds := c.N(14, 300)
@@ -108,6 +140,16 @@ func c06inputs(c *Ctx) []c06input {
 				// drop the entry / duplicate it / use its value under another label
 				mk := append(append([]gen.KeyEntry{}, key[:i]...), key[i+1:]...)
 				add("key-drop", refcbor.Encode(gen.KeyMap(mk)))
+				// drop one entry and replace another (e.g. seed-only OKP key with a wrong-length d)
+				if round%2 == 0 {
+					for j := range mk {
+						for zi := len(zoo) - 17; zi < len(zoo); zi++ { // the byte-string length classes
+							mk2 := append([]gen.KeyEntry{}, mk...)
+							mk2[j] = gen.KeyEntry{Label: mk[j].Label, Value: zoo[zi]}
+							add("key-drop+grid", refcbor.Encode(gen.KeyMap(mk2)))
+						}
+					}
+				}
 				mk2 := append(append([]gen.KeyEntry{}, key...), key[i])
 				add("key-dup", refcbor.Encode(gen.KeyMap(mk2)))
 			}
